@@ -37,6 +37,9 @@ func OracleFullVsMem(prefix string) SeqOracle {
 		evs := func(es []hapi.Event) map[string][]string {
 			m := map[string][]string{}
 			for _, e := range es {
+				if r.Spec.Text && (e.Result == 9 || (e.Result == 8 && e.Cmd == 1 && isAsync(e, es))) {
+					continue // notices are not delivered to text connections
+				}
 				if e.Cmd == 2 && e.Result == 3 {
 					e.Result = 6 // an unlock in a database no lock has touched yet: the connection layer answers UNKNOWN_DB, the engine UNLOCK_ERROR; both refuse
 				}
@@ -153,3 +156,6 @@ func OracleRefMem(o RefOpts) SeqOracle {
 		return ref(r)
 	}
 }
+
+// isAsync: a TIMEOUT that is not the direct answer of the step (kept simple: text alphabets contain no waits).
+func isAsync(e hapi.Event, all []hapi.Event) bool { return false }
